@@ -10,6 +10,7 @@
 -/
 import DateutilVerif.Proofs.IsoRender
 import DateutilVerif.Proofs.IsoDatetime
+import DateutilVerif.Proofs.IsoGenEq
 namespace C07
 open Iso IsoSpec Cal
 
@@ -139,6 +140,24 @@ theorem fraction_extra_ignored (us : Nat) (extra : List Nat) (hus : us < 1000000
 theorem isoYear_in_range (y m d : Int) (hv : ValidDate y m d) :
     1 ≤ (isoCalendar y m d).1 ∧ (isoCalendar y m d).1 ≤ 9999 :=
   isoYear_range y m d hv
+
+/-! ### the inverse law for the functions TRANSLATED from isoparser.py on every run (`Gen.*`) -/
+
+/-- the translated `_parse_tzstr` inverts every offset form -/
+theorem parse_tzstr_render_gen (o : OffForm) (x : Fields) (v : Off) (hw : offWF o x = true)
+    (hv : offDenote o x = some v) : Gen.parseTzstr (renderOff o x) true = .ok v := by
+  rw [IsoGen.parseTzstr_eq]; exact parseTzstr_render o x v hw hv
+
+/-- the translated date scanner `_parse_isodate` inverts every date form, with any unread suffix that does not
+    start with a digit: it returns the denoted date as components and the length of the rendering as position -/
+theorem parse_isodate_scan_render_gen (df : DateForm) (x : Fields) (t : Iso.Bytes)
+    (hwf : dateWF true df x = true) (hr : dateOrdinal df x ≤ maxOrdinal)
+    (ht : TailOK t) (hc : df.complete = true ∨ t = []) :
+    Gen.parseIsodate (renderDate df x ++ t) =
+      .ok ([.int (fromOrdinal (dateOrdinal df x)).1, .int (fromOrdinal (dateOrdinal df x)).2.1,
+            .int (fromOrdinal (dateOrdinal df x)).2.2], ((renderDate df x).length : Int)) := by
+  rw [IsoGen.parseIsodate_eq, parseIsodate_render df x t hwf (dateOrdinal_pos df x hwf) hr ht hc]
+  simp [Except.map, IsoGen.dateOut]
 
 /-! non-vacuity: concrete forms with well-formed fields -/
 example : WFields ⟨.weekExtD, .hmsfExt false, .hhcmm, 84⟩
